@@ -401,6 +401,11 @@ class ModuleVistor(NodeVisitor):
                                         f'{modname}.{origin_name}', thresh=1)
             else:
                 if origin_module.all is None or origin_name not in origin_module.all:
+                    # Modules can only be moved inside a package.
+                    if isinstance(ob, model.Module) and not isinstance(current, model.Package):
+                        current.report("cannot re-export module "
+                                       f"{ob.fullName()} from a module that is not a package", thresh=1)
+                        return False
                     # An object (package or module) cannot be moved inside itself.
                     container: Optional[model.Documentable] = current
                     while container is not None:
